@@ -12,6 +12,120 @@ theorem clear3_eq (n : Nat) : clear3 n = n - n % 8 := by
   unfold clear3
   rw [show (7 : Nat) = 2 ^ 3 - 1 from rfl, Nat.and_two_pow_sub_one_eq_mod]
 
+
+/-! ### the model with the pinned expressions of `Gen.Small` written out
+
+`Model.Mbits` takes its chunk boundaries, strides and loop tests from `Gen.Small` (regenerated from
+mbits.go on every run); the proofs below unfold the model only through these lemmas, which stop
+compiling when one of those tokens changes. -/
+section defs
+open MdsVerif
+
+theorem zTail_succ (n f i : Nat) (d : Bytes) :
+    zTail n (f + 1) i d =
+      if i < n then
+        match wrByte d i with
+        | none => .oob
+        | some d' => zTail n f (i + 1) d'
+      else .ok d := by
+  rw [zTail]
+  have e : (Gen.Small.zeroTailCond i n = true) = (i < n) := by
+    unfold Gen.Small.zeroTailCond; rw [decide_eq_true_eq]; apply propext; omega
+  simp only [e]; rfl
+
+theorem zWords_succ (n m f i : Nat) (d : Bytes) :
+    zWords n m (f + 1) i d =
+      if i < m then
+        match wrWord d i with
+        | none => .oob
+        | some d' => zWords n m f (i + 8) d'
+      else zTail n (n + 1) i d := by
+  rw [zWords]
+  have e : (Gen.Small.zeroWordCond i m = true) = (i < m) := by
+    unfold Gen.Small.zeroWordCond; rw [decide_eq_true_eq]; apply propext; omega
+  have e8 : Gen.Small.zeroStride = 8 := rfl
+  simp only [e, e8]; rfl
+
+theorem zero_def (d : Bytes) :
+    zero d = match zWords d.length (clear3 d.length) (d.length + 1) 0 d with
+      | .ok d' => .ok (d.length, d')
+      | .oob => .oob
+      | .fuel => .fuel := rfl
+
+theorem lzTail_succ (d : Bytes) (n f i : Nat) :
+    lzTail d n (f + 1) i =
+      if i < n then
+        match rd d i with
+        | none => .oob
+        | some b => if b == 0 then lzTail d n f (i + 1) else .ok i
+      else .ok i := by
+  rw [lzTail]
+  have e : (Gen.Small.lzTailCond i n = true) = (i < n) := by
+    unfold Gen.Small.lzTailCond; rw [decide_eq_true_eq]; apply propext; omega
+  simp only [e]; rfl
+
+theorem lzWords_succ (d : Bytes) (n m f i : Nat) :
+    lzWords d n m (f + 1) i =
+      if i < m then
+        match wordNZ d i with
+        | none => .oob
+        | some true => lzInner d (n + 1) i
+        | some false => lzWords d n m f (i + 8)
+      else lzTail d n (n + 1) i := by
+  rw [lzWords]
+  have e : (Gen.Small.lzWordCond i m = true) = (i < m) := by
+    unfold Gen.Small.lzWordCond; rw [decide_eq_true_eq]; apply propext; omega
+  have e8 : Gen.Small.lzStride = 8 := rfl
+  simp only [e, e8]; rfl
+
+theorem leadingZeroes_def (d : Bytes) :
+    leadingZeroes d = lzWords d d.length (clear3 d.length) (d.length + 1) 0 := rfl
+
+theorem tzInner_succ (d : Bytes) (f : Nat) (i : Int) (nz : Nat) :
+    tzInner d (f + 1) i nz =
+      match rdI d (i + 7) with
+      | none => .oob
+      | some b => if b == 0 then tzInner d f (i - 1) (nz + 1) else .ok nz := rfl
+
+theorem tzTail_succ (d : Bytes) (f : Nat) (m : Int) (nz : Nat) :
+    tzTail d (f + 1) m nz =
+      if m ≥ 0 then
+        match rdI d m with
+        | none => .oob
+        | some b => if b == 0 then tzTail d f (m - 1) (nz + 1) else .ok nz
+      else .ok nz := by
+  rw [tzTail]
+  have e : (Gen.Small.tzTailCond m = true) = (m ≥ 0) := by
+    unfold Gen.Small.tzTailCond; rw [decide_eq_true_eq]
+  simp only [e]; rfl
+
+theorem tzWords_succ (d : Bytes) (n : Nat) (m : Int) (f : Nat) (i : Int) (nz : Nat) :
+    tzWords d n m (f + 1) i nz =
+      if i ≥ m then
+        match wordNZI d i with
+        | none => .oob
+        | some true => tzInner d (n + 1) i nz
+        | some false => tzWords d n m f (i - 8) (nz + 8)
+      else tzTail d (n + 1) (m - 1) nz := by
+  rw [tzWords]
+  have e : (Gen.Small.tzWordCond i m = true) = (i ≥ m) := by
+    unfold Gen.Small.tzWordCond; rw [decide_eq_true_eq]
+  have e8 : Gen.Small.tzStride = 8 := rfl
+  have e9 : Gen.Small.tzCountInc = 8 := rfl
+  simp only [e, e8, e9]; rfl
+
+theorem trailingZeroes_def (d : Bytes) :
+    trailingZeroes d =
+      tzWords d d.length ((d.length : Int) - (clear3 d.length : Int)) (d.length + 1) ((d.length : Int) - 8) 0 := by
+  unfold trailingZeroes
+  have hm : ((Gen.Small.tzRagged d.length : Nat) : Int) = (d.length : Int) - (clear3 d.length : Int) := by
+    unfold Gen.Small.tzRagged clear3
+    have := Nat.and_le_left (n := d.length) (m := 7)
+    omega
+  have hs : Gen.Small.tzStart (d.length : Int) = (d.length : Int) - 8 := rfl
+  simp only [hm, hs]
+end defs
+
 /-! ### counting facts -/
 
 theorem lzCount_zeros_append (a b : List UInt8) (h : ∀ x ∈ a, x = 0) :
@@ -48,7 +162,7 @@ theorem lzTail_spec (d : List UInt8) : ∀ f i, i ≤ d.length → d.length + 1 
   | zero => intro i h1 h2; omega
   | succ f ih =>
     intro i h1 h2
-    unfold lzTail
+    rw [lzTail_succ]
     by_cases hi : i < d.length
     · have hd : d.drop i = d[i] :: d.drop (i + 1) := List.drop_eq_getElem_cons hi
       simp only [hi, if_true, rd, List.getElem?_eq_getElem hi]
@@ -97,7 +211,7 @@ theorem lzWords_spec (d : List UInt8) : ∀ f i, i ≤ clear3 d.length → i % 8
   | zero => intro i h1 _ h3; omega
   | succ f ih =>
     intro i h1 h8 h3
-    unfold lzWords
+    rw [lzWords_succ]
     by_cases hi : i < clear3 d.length
     · have hi8 : i + 8 ≤ d.length := by omega
       have hsplit : d.drop i = (d.drop i).take 8 ++ d.drop (i + 8) := by
@@ -125,7 +239,7 @@ theorem zTail_spec : ∀ f i (rest : List UInt8), i + rest.length + 1 ≤ f + i 
   | zero => intro i rest h; omega
   | succ f ih =>
     intro i rest h
-    unfold zTail
+    rw [zTail_succ]
     cases rest with
     | nil => simp
     | cons b rest =>
@@ -149,7 +263,7 @@ theorem zWords_spec : ∀ f i (rest : List UInt8), i % 8 = 0 → i ≤ clear3 (i
   | succ f ih =>
     intro i rest h8 hm h
     have hc := clear3_eq (i + rest.length)
-    unfold zWords
+    rw [zWords_succ]
     by_cases hi : i < clear3 (i + rest.length)
     · have hr : 8 ≤ rest.length := by omega
       have hlen : i + 8 ≤ (List.replicate i (0 : UInt8) ++ rest).length := by simp; omega
@@ -186,7 +300,7 @@ theorem tzTail_spec (d : List UInt8) : ∀ f (j : Nat) nz (m : Int), m = (j : In
   | zero => intro j nz m _ _ h; omega
   | succ f ih =>
     intro j nz m hm hj hf
-    unfold tzTail
+    rw [tzTail_succ]
     cases j with
     | zero =>
       have : ¬ (m ≥ 0) := by omega
@@ -214,7 +328,7 @@ theorem tzInner_spec (d : List UInt8) : ∀ f (j : Nat) nz (i : Int), i = (j : I
   | zero => intro j nz i _ _ h; omega
   | succ f ih =>
     intro j nz i hi hj hf hany
-    unfold tzInner
+    rw [tzInner_succ]
     cases j with
     | zero => simp at hany
     | succ k =>
@@ -239,7 +353,7 @@ theorem tzWords_spec (d : List UInt8) : ∀ f (j : Nat) nz (i : Int), i = (j : I
   | zero => intro j nz i _ _ _ h; omega
   | succ f ih =>
     intro j nz i hi hj h8 hf
-    unfold tzWords
+    rw [tzWords_succ]
     by_cases hge : i ≥ (d.length : Int) - (clear3 d.length : Int)
     · have hj8 : 8 ≤ j := by omega
       have hi0 : ¬ (i < 0) := by omega
